@@ -1,7 +1,7 @@
 """C13 - answers never depend on what was asked before (caches are invisible)."""
 from ..rules import order, memo, mutation, forward, config, identity, search
 
-DECIDES = ("C13: memo-key completeness and wrapper transparency of the three decorators, what may be memoised (no generator, no data-file-system effect), no state on the read path outside the memo decorators. Also: hash and equality are functions of the uri, so memo keys identify Sids (R-IDENT); Finders built once do not depend on the arguments of the first call (R-FINDERID); memo keys hold the argument values, not a lossy conversion (R-KEY); cache-owned values are never mutated, also not through in-place operators or functions handing a cached result on (R-MUT); no ordered result takes its order from the iteration of a set of strings / Sids, and no set of Sids is sorted (they compare by string only and tie): the string-hash seed cannot be seen (R-ORD). No stray module-level `name` shared by the path configurations (R-CONFSHADOW).")
+DECIDES = ("C13: memo-key completeness and wrapper transparency of the three decorators, what may be memoised (no generator, no data-file-system effect), no state on the read path outside the memo decorators. Also: hash and equality are functions of the uri, so memo keys identify Sids (R-IDENT); Finders built once do not depend on the arguments of the first call (R-FINDERID); memo keys hold the argument values, not a lossy conversion (R-KEY); cache-owned values are never mutated, also not through in-place operators or functions handing a cached result on, and the one accepted in-place rewrite (path_to_dict's path mapping on resolva's cached dictionary) has no second reader: every other resolve_* call site is on the sid resolver (R-MUT); no ordered result takes its order from the iteration of a set of strings / Sids, and no set of Sids is sorted (they compare by string only and tie): the string-hash seed cannot be seen (R-ORD). No stray module-level `name` shared by the path configurations (R-CONFSHADOW).")
 DOES_NOT_DECIDE = "equality with a fresh process as such (value level)"
 
 
